@@ -223,8 +223,17 @@ def run_case(ctx, name, params):
                 inj = sched.YieldInjector(params["seed"], prob=r.choice([0.1, 0.3, 0.6]))
                 inj.start()
             err = None
+            import contextlib
+            amb = contextlib.nullcontext()
+            if r.random() < 0.25:
+                # the caller has chosen a process-based joblib backend for its own purposes (scikit-learn users do): results are
+                # reported by updating the design objects in place, so the evaluation has to stay in this process
+                import joblib
+                amb = joblib.parallel_backend(r.choice(["loky", "multiprocessing"]))
+                ctx.count("batches_under_an_ambient_process_backend")
             try:
-                a1.evaluate(batch)
+                with amb:
+                    a1.evaluate(batch)
             except BaseException as e:
                 err = e
             finally:
